@@ -160,7 +160,7 @@ func genDisp(r *Rng) Sx {
 			hs = append(hs, L(rt.ID, actionsSx(genActions(r, 1+r.Intn(4), panicPct))))
 		}
 	}
-	cf := genFScripts(r, "c", 3, panicPct)
+	cf := genFScripts(r, "c", []int{3, 3, 3, 3, 7}[r.Intn(5)], panicPct)
 	recoverScript := []Action{{1, "500", ""}, {2, "<recovered>", ""}}
 	if r.Pct(25) {
 		recoverScript = []Action{}
@@ -172,7 +172,7 @@ func genDisp(r *Rng) Sx {
 	}
 	cfg := L(t.Sx(), fscriptsSx(cf), sf, rf, hs, B(r.Pct(55)), B(r.Pct(60)), actionsSx(recoverScript), r.Intn(2), []int{0, 1, 2, 8}[r.Intn(4)])
 	n := 1 + r.Intn(4)
-	if r.Pct(10) {
+	if r.Pct(10) || forceConc {
 		n = 5 + r.Intn(12)
 	}
 	hist := Ls{}
@@ -192,7 +192,7 @@ func genDisp(r *Rng) Sx {
 		hist = append(hist, L(r.Intn(2), q.Sx(), A(preset)))
 	}
 	mode := 0
-	if r.Pct(25) {
+	if r.Pct(25) || forceConc {
 		mode = 2 + r.Intn(7)
 	}
 	return L(cfg, hist, mode)
